@@ -372,6 +372,67 @@ func TestVerif_C04(t *testing.T) {
 			r.Outcome("ok")
 		})
 	}
+	// group-capacity family: a group (the root group, and a created group) brought to 30, 31 and
+	// 32 members with short names, then one more link of every kind into it; whatever the call
+	// answers, every other object of the file must stay what it was and the file must open.
+	{
+		mkX := vfOp{Op: "mkds", Path: "/x", Type: "f64", Dims: []uint64{4}}
+		var jobs [][]vfOp
+		for _, parent := range []string{"", "/g"} {
+			for _, n := range []int{30, 31, 32} {
+				h := []vfOp{mkX, {Op: "write", Path: "/x", Pat: 1}}
+				have := 1
+				if parent == "/g" {
+					h = append(h, vfOp{Op: "mkgroup", Path: "/g"})
+					have = 0
+				}
+				for i := have; i < n; i++ {
+					h = append(h, vfOp{Op: "mkds", Path: fmt.Sprintf("%s/c%02d", parent, i), Type: "u8", Dims: []uint64{1}})
+				}
+				for _, last := range []vfOp{
+					{Op: "mkds", Path: parent + "/n", Type: "i32", Dims: []uint64{2}},
+					{Op: "mkgroup", Path: parent + "/h"},
+					{Op: "hardlink", Path: parent + "/l", Target: "/x"},
+					{Op: "softlink", Path: parent + "/s", Target: "/x"},
+				} {
+					jobs = append(jobs, append(append([]vfOp{}, h...), last))
+				}
+			}
+		}
+		vkit.ParallelFor(len(jobs), func(i int) {
+			hist := jobs[i]
+			parent := vfRun(dir, nil, hist[:len(hist)-1], false)
+			cur := vfRun(dir, nil, hist, true)
+			r.Transitions(2)
+			r.Case("group-capacity: " + vfOpsString(hist))
+			op := hist[len(hist)-1]
+			detail := map[string]any{"family": "group-capacity", "ops": hist, "history": vfOpsString(hist)}
+			if parent.Tree == nil {
+				return
+			}
+			if cur.Tree == nil {
+				detail["open_error"] = fmt.Sprint(cur.OpenErr)
+				r.Fail(fmt.Sprintf("group-capacity/%s/file-unopenable", op.Op), detail)
+				return
+			}
+			touched := vfTouched(op, parent.Tree)
+			for p, ob := range parent.Tree.Objs {
+				if touched[p] {
+					continue
+				}
+				nb := cur.Tree.Objs[p]
+				if nb == nil || nb.Content() != ob.Content() {
+					detail["victim"] = p
+					r.Fail(fmt.Sprintf("group-capacity/%s/other-object-changed(%s)", op.Op, ob.Kind), detail)
+					return
+				}
+			}
+			if cur.Closed == nil || cur.Closed.String() != cur.Tree.String() {
+				r.Fail("group-capacity/close-changes-content", detail)
+			}
+			r.Outcome("ok")
+		})
+	}
 	// variable-length family: data that lives in global heap collections, which are written
 	// when a collection fills up or at Close. Every sequence up to the depth over two
 	// variable-length datasets (short elements, an element larger than a default collection,
